@@ -287,6 +287,10 @@ def _selection(ctx, P):
          {fs([AY, AZ]): [mvar("area_yz", [c("AY"), c("AZ")])], fs([AX]): [mvar("dxc", [c("AX")])], fs([AX, AY]): [mvar("area_xy", [c("AX"), c("AY")])]},
          [c("AX"), c("AY"), c("AZ")], (AX, AY, AZ), ["area_yz", "dxc"], 0),
         ("nothing registered for an axis", {fs([AX]): full[fs([AX])]}, [c("AX"), c("AY")], (AX, AY), "raise", 0),
+        # a metric of a larger axis set is not a metric of the requested one, whatever was registered first
+        ("only a superset of the requested axes is registered", {fs([AX, AY]): full[fs([AX, AY])]}, [c("AX"), c("AY")], (AX,), "raise", 0),
+        ("a superset registered before the exact set", {fs([AX, AY]): full[fs([AX, AY])], fs([AX]): full[fs([AX])]}, [c("AX"), c("AY")], (AX,), ["dxc"], 0),
+        ("a superset registered after the exact set", {fs([AX]): full[fs([AX])], fs([AX, AY]): full[fs([AX, AY])]}, [Sym("t"), l("AX")], (AX,), ["dxg"], 0),
         ("array without a dimension of the axis", full, [Sym("t"), c("AY")], (AX,), "raise", 0),
     ]
     for name, reg, dims, axes, want, n_warn in cases:
